@@ -208,6 +208,9 @@ def launch(cdir, job, idx, subseed, budget_ms, outdir, replay=None, max_runs=0):
         "VERIF_MAX_RUNS": str(max_runs), "VERIF_WORKDIR": os.path.join(outdir, "wd%03d" % idx),
     })
     env.update(job.get("env", {}))
+    if job.get("race"):
+        env["GORACE"] = "log_path=%s halt_on_error=0" % os.path.join(outdir, "race%03d" % idx)
+        env["VERIF_SHRINK_MS"] = "0"
     if replay:
         env["VERIF_REPLAY"] = replay
     os.makedirs(env["VERIF_WORKDIR"], exist_ok=True)
@@ -338,6 +341,21 @@ def run_check(prop, spec, tier, seed, replay, cdir, key, instr, outdir, t0):
             if j.get("race") and "WARNING: DATA RACE" in tail:
                 pass
 
+    # race-detector reports (sound evidence; replay is best effort)
+    race_viols = []
+    for idx, (j, ss, p, out, logf) in enumerate(procs):
+        if not j.get("race"):
+            continue
+        reports = sorted(f for f in os.listdir(outdir) if f.startswith("race%03d." % idx))
+        if not reports:
+            continue
+        text = "".join(open(os.path.join(outdir, f)).read() for f in reports)
+        frames = [l.strip() for l in text.splitlines() if "semantic_firewall" in l and "verifsim" not in l and "zz_verif" not in l][:4]
+        rp = os.path.join(VERIF, "replays", "%s-race-%s-%d-%s.txt" % (prop, j["engine"], ss, hashlib.sha256(text.encode()).hexdigest()[:12]))
+        with open(rp, "w") as f:
+            f.write("engine=%s sub_seed=%d cfg=%s\nre-run: VERIF_SEED=%d ./bin/check %s (stress; interleaving is the Go runtime's)\n\n%s" % (j["engine"], ss, json.dumps(j.get("cfg", {})), seed, prop, text))
+        race_viols.append({"class": prop + "/data-race", "msg": "race detector report in %s: %s" % (j["engine"], " | ".join(frames)), "replay": rp, "reproduced": True, "count": text.count("WARNING: DATA RACE")})
+
     # aggregate
     runs = 0
     nontriv = 0
@@ -359,10 +377,13 @@ def run_check(prop, spec, tier, seed, replay, cdir, key, instr, outdir, t0):
             if len(samples) < 4:
                 samples.append(s)
         for v in wo.get("violations") or []:
+            if j.get("race"):
+                v = dict(v, reproduced=True)  # stress engines: sound without deterministic replay
             viols.append(v)
         for m in wo.get("infra") or []:
             infra_msgs.append(m)
 
+    viols.extend(race_viols)
     # classify violations
     rc = 0
     seen_known = {}
